@@ -15,6 +15,7 @@ func init() {
 			"(R15.1) the struct case of the bundled type hasher, which salts field names, reads only attributes that Go's type identity preserves and that survive instantiation — the number of fields, each field's name, its position and whether it is embedded; never tags, positions, packages, field types, String() or pointer values; and nothing the hasher can reach iterates a map or reads configuration; " +
 			"(R15.2) every hashWithStruct call site passes a field together with the struct it belongs to: (fieldToStruct[o], o) with o an origin field, or a field enumerated from that same struct value; " +
 			"(R15.3) the field-to-struct map records origin fields only (instantiated structs are skipped), maps each field to the struct being walked, and descends into named types through Origin().Underlying(). " +
+			"(R02.8, shared with C02) no 'keep the name' exception of the naming decision depends on the declaring package beyond the four documented standard-library packages, matched by import path: such an exception bypasses the struct salt for one of two identical structs. " +
 			"Does not decide Identical(t,t') => equal salt for every type shape, nor that cross-package conversions compile.",
 		perConfig: checkC15,
 	})
@@ -22,6 +23,7 @@ func init() {
 
 func checkC15(c *Ctx) {
 	w := c.W
+	ruleNoNewNameExemption(c)
 	c.Rule("R15.1", "the struct identity hash reads only identity- and instantiation-invariant attributes", 3)
 	hs := w.Fn("(typeutil_hasher).hash")
 	if hs == nil {
